@@ -312,16 +312,28 @@ def r12(ctx, rep):
     rep.check(len(pops) >= 1, "star-absorbs-from-end", f"expected the preceding columns of a star to be taken from the end of `{out_name}` (pop / truncate), found {len(pops)} such call(s)",
               file=f["file"], line=f["l"], fn=f["path"])
     g = syn.fn("gen_projection::translate_select_items", crate="prqlc")
-    inl = Inliner(g, maxdepth=14, max_inline=4)
+    file_fns = [h for h in syn.fns if h["crate"] == "prqlc" and h["file"] == g["file"] and "body" in h]
+
+    def from_exclusions(fn_, arg, depth=0):
+        """does the value `arg` (in fn_) come from `excluded.remove(..)` through translate_exclude - directly, or as a parameter that every caller in this file fills that way?"""
+        txt = Inliner(fn_, maxdepth=14, max_inline=4).show(arg)
+        if "translate_exclude(" in txt and ".remove(" in txt:
+            return True
+        prm = [show(x.get("pat", x)).split(":")[0].strip() if isinstance(x, dict) else str(x).split(":")[0].strip() for x in fn_.get("params", [])]
+        if depth < 2 and arg.get("k") == "path" and arg["p"] in prm:
+            pos = prm.index(arg["p"])
+            sites = [(h, c) for h in file_fns for c in walk(h["body"]) if c.get("k") == "call" and last_seg(show(c["f"])) == fn_["name"] and len(c["a"]) == len(prm)]
+            return bool(sites) and all(from_exclusions(h, c["a"][pos], depth + 1) for h, c in sites)
+        return False
     n_star = 0
-    for n in walk(g["body"]):
-        if n.get("k") == "call" and last_seg(show(n["f"])) in ("Wildcard", "QualifiedWildcard") and "SelectItem" in show(n["f"]):
-            n_star += 1
-            opt = inl.show(n["a"][-1])
-            rep.check("translate_exclude(" in opt and ".remove(" in opt, f"star-options:{last_seg(show(n['f']))}", f"`{show(n['f'])}` is built with options `{opt[:120]}`: the exclusion set recorded for this star "
-                      "(`excluded.remove(&cid)` -> translate_exclude) must reach both the bare `*` and the qualified `t.*`, otherwise `select !{t1.a}` after a join emits `t1.*, t2.*` and the column is back",
-                      file=g["file"], line=n["l"], fn=g["path"])
-    rep.check(n_star == 2, "star-constructors", f"expected SelectItem::Wildcard and SelectItem::QualifiedWildcard in translate_select_items, found {n_star}", file=g["file"], line=g["l"], fn=g["path"])
+    for h in file_fns:
+        for n in walk(h["body"]):
+            if n.get("k") == "call" and last_seg(show(n["f"])) in ("Wildcard", "QualifiedWildcard") and "SelectItem" in show(n["f"]):
+                n_star += 1
+                rep.check(from_exclusions(h, n["a"][-1]), f"star-options:{last_seg(show(n['f']))}", f"`{show(n['f'])}` in {h['name']} is built with options `{show(n['a'][-1], maxdepth=6)[:120]}`: the exclusion set "
+                          "recorded for this star (`excluded.remove(&cid)` -> translate_exclude) must reach both the bare `*` and the qualified `t.*`, otherwise `select !{t1.a}` after a join emits "
+                          "`t1.*, t2.*` and the column is back", file=h["file"], line=n["l"], fn=h["path"])
+    rep.check(n_star == 2, "star-constructors", f"expected SelectItem::Wildcard and SelectItem::QualifiedWildcard in gen_projection.rs, found {n_star}", file=g["file"], line=g["l"], fn=g["path"])
 
 
 def run(ctx, rep):
